@@ -11,6 +11,13 @@ def run_case(case):
     out = io.StringIO()
     try:
         if case['route'] == 'class': DLPoly_PairTabulation(pots, case['cutoff'], case['nr']).write(out)
+        elif case['route'] == 'class-reused':
+            plist = [Potential('Q', 'Q', mk_callable(dict(kind='poly', coefs=[1.0, 2.0])))]
+            tab = DLPoly_PairTabulation(plist, case['cutoff'], case['nr'])
+            try: tab.write(io.StringIO())
+            except Exception: pass
+            del plist[:]; plist.extend(pots)
+            tab.write(out)
         else: ap.writePotentials('DL_POLY', pots, case['cutoff'], case['nr'], out)
     except Exception as e:
         return out.getvalue(), fs, e
@@ -54,13 +61,45 @@ def check_case(rep, case, name):
 def gen_case(rng):
     nr = rng.choice([8, 12, 16, 20, 100, 104, 2104, 4 * rng.randint(2, 60), rng.randint(5, 200)])
     pots = [dict(A=rng.choice(LABELS), B=rng.choice(LABELS), fn=rand_callable_spec(rng)) for _ in range(rng.randint(1, 3))]
-    return dict(route=rng.choice(['class', 'writePotentials']), cutoff=rng.choice([1.0, 6.5, 7.0, 10.0, round(rng.uniform(0.5, 15), 2)]), nr=nr, pots=pots)
+    if rng.random() < 0.2:
+        # a dyadic grid and an energy function with a simple root exactly on one of its rows (V = 0 there, dV/dr is not)
+        nr = rng.choice([36, 68, 132]); delpot = 8.0 / (nr - 4)
+        pots[0]['fn'] = root_on_grid_spec(rng, delpot * rng.randint(1, nr - 1))
+        return dict(route=rng.choice(['class', 'writePotentials', 'class-reused']), cutoff=8.0, nr=nr, pots=pots)
+    return dict(route=rng.choice(['class', 'writePotentials', 'class-reused']), cutoff=rng.choice([1.0, 6.5, 7.0, 10.0, round(rng.uniform(0.5, 15), 2)]), nr=nr, pots=pots)
+
+def factory_cases(rep):
+    """potable route: every way of fixing the row count ends in a TABLE with ngrid % 4 == 0 or in a configuration error with no file"""
+    import tempfile, os
+    for nm, tab in (('nr-omitted', 'cutoff : 6.0'), ('nr-1001', 'cutoff : 6.0\nnr : 1001'), ('nr-1000', 'cutoff : 6.0\nnr : 1000'), ('dr-and-cutoff', 'cutoff : 6.0\ndr : 0.01'),
+                    ('dr-and-cutoff-multiple-of-4', 'cutoff : 6.0\ndr : 0.006006006006006006')):
+        for target in ('DL_POLY', 'DLPOLY'):
+            case = dict(kind='potable-row-count', name=nm, target=target)
+            rep.case('potable/' + nm, case)
+            d = tempfile.mkdtemp()
+            try:
+                cfg = os.path.join(d, 'm.aspot'); outp = os.path.join(d, 'TABLE')
+                open(cfg, 'w').write('[Tabulation]\ntarget : %s\n%s\n[Pair]\nO-O : as.buck 1000.0 0.3 32.0\n' % (target, tab))
+                code, so, se = potable_main([cfg, outp])
+                text = open(outp).read() if os.path.exists(outp) else None
+                if code == 0 and text:
+                    try: n = int(text.split('\n')[1][30:40])
+                    except Exception: n = None
+                    if n is None or n % 4 != 0: rep.dev('potable-' + nm, case, 'TABLE with ngrid %r' % n, 'ngrid divisible by four')
+                    else: rep.ok()
+                elif 'configuration error' in se and not text: rep.ok()
+                else: rep.dev('potable-' + nm, case, 'exit %r, stderr %r, output file %s' % (code, se[-150:], 'absent' if text is None else '%d bytes' % len(text)),
+                              'a TABLE with ngrid % 4 == 0, or a configuration error and no output file')
+            finally:
+                import shutil; shutil.rmtree(d, ignore_errors=True)
 
 if __name__ == '__main__':
     pl = payload(); rep = Report('C02')
-    if pl.get('mode') == 'replay': rep.case('replay', pl['input']); check_case(rep, pl['input'], 'replay')
+    if pl.get('mode') == 'replay' and pl['input'].get('kind') == 'potable-row-count': factory_cases(rep)
+    elif pl.get('mode') == 'replay': rep.case('replay', pl['input']); check_case(rep, pl['input'], 'replay')
     else:
         rng = random.Random(pl.get('seed', 0))
+        factory_cases(rep)
         for i in range(pl.get('n', 40)):
-            c = gen_case(rng); rep.case(c['route'] + ('/reject' if c['nr'] % 4 else ''), c); check_case(rep, c, 'seeded-%d' % i)
+            c = gen_case(rng); rep.case(c['route'] + ('/reject' if c['nr'] % 4 else '') + ('/root-on-grid' if c['cutoff'] == 8.0 and c['nr'] in (36, 68, 132) else ''), c); check_case(rep, c, 'seeded-%d' % i)
     rep.finish()
